@@ -70,6 +70,8 @@ pub struct Session {
     pub retired: AtomicUsize,
     pub device_writes: AtomicU64,
     pub fsyncs: AtomicU64,
+    /// flush requests completed by the store's workers
+    pub worker_done: AtomicU64,
     pub sched: Mutex<Option<Arc<dyn SchedHooks>>>,
     sched_on: AtomicBool,
     fsync_open: AtomicBool,
@@ -91,6 +93,7 @@ impl Session {
             retired: AtomicUsize::new(0),
             device_writes: AtomicU64::new(0),
             fsyncs: AtomicU64::new(0),
+            worker_done: AtomicU64::new(0),
             sched: Mutex::new(None),
             sched_on: AtomicBool::new(false),
             fsync_open: AtomicBool::new(false),
@@ -236,6 +239,9 @@ impl Handler for Session {
     }
 
     fn note(&self, name: &'static str, a: u64, b: u64) {
+        if name == "worker_done" {
+            self.worker_done.fetch_add(1, Ordering::SeqCst);
+        }
         if let Some(s) = self.sched() {
             s.note(name, a, b);
         }
